@@ -163,3 +163,16 @@ pub fn lattice8() -> Vec<u8> {
     v.dedup();
     v
 }
+
+/// integer fields / iterator items of the library read as usize whatever their declared width or reference shape
+/// (the harness must keep compiling when a refactoring narrows or widens a public integer type)
+pub trait AsIndex {
+    fn ix(self) -> usize;
+}
+macro_rules! as_index_impl {
+    ($($t:ty),*) => { $(
+        impl AsIndex for $t { fn ix(self) -> usize { self as usize } }
+        impl AsIndex for &$t { fn ix(self) -> usize { *self as usize } }
+    )* };
+}
+as_index_impl!(u8, u16, u32, u64, usize);
